@@ -204,6 +204,15 @@ def jvp_case(rng):
             "ts": [int(t) for t in ts], "impl": impl}
 
 
+def _same(a, b):
+    """equal; beyond 2**50 integer arithmetic in float64 is no longer exact and the two evaluation orders may round
+    differently in the last place - there (only) a relative difference of 1e-12 is accepted"""
+    a, b = float(a), float(b)
+    if a == b:
+        return True
+    return max(abs(a), abs(b)) >= 2.0 ** 50 and abs(a - b) <= 1e-12 * max(abs(a), abs(b))
+
+
 def checkpoint_case(rng):
     """checkpoint(f) has the value and the reverse-mode derivatives (orders 1..3) of f"""
     body = impl_l2.gen(rng, rng.randint(2, 4), 1, {"maxd": 0})
@@ -213,8 +222,8 @@ def checkpoint_case(rng):
     try:
         base = [f(x), grad(f)(x), grad(grad(f))(x), grad(grad(grad(f)))(x)]
         chk = [cf(x), grad(cf)(x), grad(grad(cf))(x), grad(grad(grad(cf)))(x)]
-        mixed = grad(lambda y: cf(y) * f(y))(x) == grad(lambda y: f(y) * f(y))(x)
-        ok = all(float(a) == float(b) for a, b in zip(base, chk)) and bool(mixed)
+        mixed = _same(grad(lambda y: cf(y) * f(y))(x), grad(lambda y: f(y) * f(y))(x))
+        ok = all(_same(a, b) for a, b in zip(base, chk)) and bool(mixed)
         return {"checkpoint": True, "body": body, "x": x, "ok": ok, "base": [float(v) for v in base],
                 "chk": [float(v) for v in chk]}
     except OverflowError:
@@ -388,7 +397,7 @@ def checkpoint_case_nary(rng):
             chk.append(v)
         except NotImplementedError:
             pass
-        ok = all(float(a) == float(b) for a, b in zip(base, chk))
+        ok = all(_same(a, b) for a, b in zip(base, chk))
         return {"checkpoint": True, "body": body, "x": xs, "ok": ok, "base": [float(v) for v in base],
                 "chk": [float(v) for v in chk]}
     except OverflowError:
